@@ -71,7 +71,9 @@ def run_c07(sc):
         step = len(eligible) / MAX_POSITIONS
         eligible = [eligible[int(k * step)] for k in range(MAX_POSITIONS)]
     extra = sc.get("fault_pairs") or []
-    plans = [[i] for i in eligible] + [list(p) for p in extra if all(1 <= x <= n for x in p)]
+    ok_kinds = ("action", "fn", "plugin", "subscriber", "listener", "guard")
+    plans = [[i] for i in eligible] + [list(p) for p in extra if all(1 <= x <= n and kinds[x - 1][0] in ok_kinds
+                                                                     and not str(kinds[x - 1][1]).startswith("delay_") for x in p)]
     base_cfg = _cfg_seq(base, root)
     base_acts = _acts(base, root)
     base_actx = _actx(base, root)
